@@ -1267,8 +1267,11 @@ def _f50(case):
     anns = {fn: a for lv in case["spec"]["levels"] for fn, a in lv["own"]}
     df = case["diff_fields"]
     # (a field typed with `Self` holds a nested instance of the same class, alias-typed fields included)
+    # ... and when ONLY Self-typed fields differ (the outer alias-typed field held an empty / identical payload), the
+    # difference sits in the alias-typed field of the NESTED instance: the class must have such a field
     return (all(fn in anns and (mentions_alias(anns[fn]) or has_self(anns[fn])) for fn in df)
-            and any(mentions_alias(anns[fn]) for fn in df))
+            and (any(mentions_alias(anns[fn]) for fn in df)
+                 or (any(has_self(anns[fn]) for fn in df) and any(mentions_alias(a) for a in anns.values()))))
 
 
 F51_SIG = "c17_bare_subclass_of_passthrough_base_refused_only_when_reached"
